@@ -54,7 +54,11 @@ prop("C17",
                         # image headers with 'image scaling factor[f]' given per plane for the first (and some later) data sets
                         "equivalent_headers_scaling_factor_per_plane": 120,
                         # committed corpus of the coverage-guided campaigns, judged in both builds
-                        "fuzz_inputs_judged": 2000, "fuzz_committed_corpus_files": 1000},
+                        "fuzz_inputs_judged": 2000, "fuzz_committed_corpus_files": 1000,
+                        # DOS line ends / continued lines as documented-equivalent layouts
+                        "roundtrip_dos_line_end_texts_parsed": 140, "roundtrip_dos_line_end_texts_with_continued_lines": 15,
+                        "keyword_texts_with_continued_lines": 200, "keyword_texts_with_dos_line_ends": 300,
+                        "keyword_texts_with_continued_lines_and_dos_line_ends": 40},
               "thorough": {"mutated_inputs": 100000, "inputs_accepted_and_consistent": 45000, "data_length_checks": 30000,
                            "registered_classes_enumerated": 114, "roundtrip_fixed_points_checked": 1100,
                            "keyword_lines_respelled_and_matched": 100000, "vectorised_lines_stored_at_index": 40000,
